@@ -95,3 +95,62 @@ func verifC08Group(N, maxVal int) {
 
 func VerifHarness_C08_Group_MapOrder_2() { verifC08Group(2, 1) }
 func VerifHarness_C08_Group_MapOrder_3() { verifC08Group(3, 2) }
+
+// C08-O2: concrete label sets chosen to be ambiguous under sloppy stream keys
+// (name/value boundary, pair boundary, quoting): records share a stream iff
+// their label sets are equal.
+var verifAmbiguousSets = []map[string]string{
+	{"a": "bc"},
+	{"ab": "c"},
+	{"a": "b", "c": "d"},
+	{"a": `b",c="d`},
+	{"a": "b,c=d"},
+	{},
+	{"a": "b", "cd": ""},
+	{"a": "", "bcd": ""},
+}
+
+func verifC08Ambiguous(N int) {
+	var recs []logstorage.Record
+	pick := make([]int, N)
+	for j := 0; j < N; j++ {
+		pick[j] = vsymChoice("set", len(verifAmbiguousSets))
+		rec := verifRecord(int64(1000+j), "x", verifAmbiguousSets[pick[j]])
+		recs = append(recs, rec)
+	}
+	cur := 0
+	it := &entryIterator{iter: &verifCountingIter{recs: recs, cur: &cur}, prefilter: NopProcessor, pipeline: NopProcessor, limit: -1}
+	streams, err := groupEntries(it)
+	vsymAssert(err == nil, "grouping succeeds")
+	total := 0
+	for _, st := range streams {
+		total += len(st.Values)
+	}
+	vsymAssert(total == N, "every record is returned once")
+	streamOf := func(j int) int {
+		for si, st := range streams {
+			for _, e := range st.Values {
+				if e.T == uint64(1000+j) {
+					return si
+				}
+			}
+		}
+		return -1
+	}
+	for j := 0; j < N; j++ {
+		sj := streamOf(j)
+		vsymAssert(sj >= 0, "every record sits in a stream")
+		want := map[string]string{"msg": "x"}
+		for k, v := range verifAmbiguousSets[pick[j]] {
+			want[k] = v
+		}
+		vsymAssert(verifMapEq(streams[sj].Stream.Value, want), "an entry sits in the stream carrying exactly its labels")
+		for i := 0; i < j; i++ {
+			vsymAssert((streamOf(i) == sj) == (pick[i] == pick[j]), "two records share a stream iff their label sets are equal")
+		}
+	}
+	vsymReach("C08_ambiguous")
+}
+
+func VerifHarness_C08_Ambiguous_2() { verifC08Ambiguous(2) }
+func VerifHarness_C08_Ambiguous_3() { verifC08Ambiguous(3) }
